@@ -4,7 +4,16 @@
 Contract modelled (text mode only): opening a missing file for reading raises
 FileNotFoundError (an IOError); opening for writing truncates the file at once and
 every write() appends to it immediately, so an interrupted write leaves a prefix of
-the text behind; read() returns the whole content."""
+the text behind; read() returns the whole content.
+
+Crash points: `fs.crash_after = n` lets n more characters reach files and then raises Crash from write() (the prefix
+written so far stays behind, as after a kill); `fs.crash_at_replace = True` raises Crash from replace() before the
+rename is done.  `fs.replace(src, dst)` models os.replace: the rename itself is atomic.  `fs.os_shim(os)` is an `os`
+look-alike whose replace/remove act on the in-memory files (planted as `store.os`)."""
+
+
+class Crash(Exception):
+    """The process died at a crash point of the in-memory file system."""
 
 
 class _Reader:
@@ -35,6 +44,13 @@ class _Writer:
         self.closed = False
 
     def write(self, s):
+        b = self._fs.crash_after
+        if b is not None:
+            if len(s) > b or (b == 0 and len(s) > 0):
+                self._fs.files[self._name] = self._fs.files[self._name] + s[:b]
+                self._fs.crash_after = 0
+                raise Crash()
+            self._fs.crash_after = b - len(s)
         self._fs.files[self._name] = self._fs.files[self._name] + s
         self._fs.writes += 1
         return len(s)
@@ -61,6 +77,34 @@ class MemFS:
         self.files = {}
         self.writes = 0
         self.opens = []
+        self.crash_after = None
+        self.crash_at_replace = False
+
+    def replace(self, src, dst):
+        if self.crash_at_replace:
+            self.crash_at_replace = False
+            raise Crash()
+        if src not in self.files:
+            raise FileNotFoundError(2, "No such file or directory", src)
+        self.files[dst] = self.files.pop(src)
+
+    def remove(self, name):
+        if name not in self.files:
+            raise FileNotFoundError(2, "No such file or directory", name)
+        del self.files[name]
+
+    def os_shim(self, real_os):
+        fs = self
+
+        class _Os:
+            replace = staticmethod(fs.replace)
+            rename = staticmethod(fs.replace)
+            remove = staticmethod(fs.remove)
+            unlink = staticmethod(fs.remove)
+
+            def __getattr__(self, name):
+                return getattr(real_os, name)
+        return _Os()
 
     def open(self, name, mode="r", *args, **kwargs):
         self.opens.append((name, mode))
